@@ -31,6 +31,13 @@ STRENGTHENED = {
     "C11-b1": "generator: .matches() with literal and computed patterns (R2 got a matcher for the generated subset), several authorizers evaluated on one thread",
     "C11-b2": "C11 verifiers with small fact budgets, plus a product query whose answer is larger than the fact store",
     "C12-b1": "new C12 clause: the verifier's view of the token (decision, failed checks, queries, facts with origins) equals R2 evaluated on the authors' own ASTs - block-level `trusting <key>` of a third-party block included",
+    "C07-c1": "a fourth decode path in every sweep (UnverifiedBiscuit::unsafe_deprecated_deserialize followed by the ordinary verify()) and a new adversary operator TpForge: holder and a signer of its own append a correctly chained third-party block whose signatures use another layout (block signature version 0 / 1, external signature over the deprecated payload or over the current one declaring version 0 / 1); what that path accepts beyond the strict ones must still be bound to the previous signature (R1 in lenient mode); C07 now runs the third-party part of the sweep",
+    "C08-c2": "C08's seal clause replays the same first-party history over an application base symbol table (build_with_key_pair takes one, from_with_symbols reads it back): the value seal() returns and the sealed bytes read back must expose and authorize what the unsealed token does",
+    "C10-c1": "the budget engine can place the program's checks in the authority block or in attenuation blocks of a token (those are the last units of work of authorize, after the policies), with the stall injected at every unit of work as before",
+    "C11-c1": "R2 now tells a failing *rule* binding (the evaluation fails under every order) from the first-match race of checks and policies, so a plain decision next to a rule error is no longer filed under the known finding; generator: projections guarded by an expression that fails for some values of the variable they drop; quick tier 6000 runs",
+    "C11-c2": "new clause: the same authorizer asked a second time, and a clone taken after the first answer, give the first answer",
+    "C16-c1": "the Byzantine re-declaration of versions (absent, 0..8) is also applied to the token's last block inside an authorizer snapshot (Authorizer::from_raw_snapshot must refuse before any evaluation work)",
+    "C19-c1": "Format errors are now compared by exact kind (name correspondence between error::Format variants and ErrorKind), and biscuit_from is fed structurally damaged tokens (signature of the wrong length, empty, key of the wrong size, truncation) next to the byte flip",
     "C19-b2": "new operation FromForeign: tokens minted by another party through the Rust API (text holding a NUL, third-party block, 70 kB strings, 3.3 values) loaded with biscuit_from and then printed, inspected, authorized, with the failed-check accessors read",
 }
 
@@ -101,7 +108,7 @@ with open("/verif/seeded/RESULTS.md", "w") as f:
     f.write("Each row is one source change written by an independent sub-agent (given only the property text),\n")
     f.write("confirmed in a scratch worktree (suite passes with it, demonstration fails with it and passes without),\n")
     f.write("then applied to /repo for one run of the quick check(s) and reverted. `exit 1` = caught.\n")
-    f.write("`<property>-<n>` is the first round, `<property>-b<n>` the second (told what the first produced, to get a different kind).\n\n")
+    f.write("`<property>-<n>` is the first round, `<property>-b<n>` the second and `<property>-c<n>` the third (each told the titles of the earlier ones, to get a different kind).\n\n")
     f.write("| seeded change | what it is | caught by (quick tier) | last evaluation | missed at first? |\n|---|---|---|---|---|\n")
     for name, prop, title, caught, entry in rows:
         res = ", ".join(f"{p}: exit {d['exit']}" for p, d in sorted(entry.items()))
